@@ -9,7 +9,11 @@
    i-th value start + i*delta is defined) and stands for the written-out
    values va.  "Replacing a run by its compressed form or expanding it" is
    [denote F a v /\ denote F a' v].  [all_nonan]: no NaN among the values
-   (C's == and > are no order on NaN).  Sizes are passed in slots as in C.
+   (C's == and > are no order on NaN).  The laws are named _partial because of
+   this side condition: the property text has no such exception and without it
+   they are false of model and code (C16_nan_refuted; finding class
+   nan-in-list, whose classifier is "not all_nonan" of a list the failure
+   names).  Full statement of each: the same without the all_nonan premises.  Sizes are passed in slots as in C.
    F is the float arithmetic used by ranges with a float delta: every
    theorem holds for every F.  Comparison results of the model are -1/0/1
    (memcmp/strcmp are modelled by their sign). *)
@@ -23,23 +27,23 @@ Local Open Scope Z_scope.
 (* the model's cmp is the lexicographic comparison of the keys of the written-out
    values (tag, then number / bytes; arrays: class of the element type, then the
    elements; a proper prefix first), eq is "that comparison says equal" *)
-Theorem C16_cmp_is_key_order : forall F a b va vb,
+Theorem C16_cmp_is_key_order_partial : forall F a b va vb,
   denote F a va -> denote F b vb -> all_nonan va -> all_nonan vb ->
   vals_cmp F a b (Zlength a) (Zlength b) = Some (z_of_cmp (cmp_values va vb)).
 Proof. exact vals_cmp_spec. Qed.
 
-Theorem C16_eq_is_key_equality : forall F a b va vb,
+Theorem C16_eq_is_key_equality_partial : forall F a b va vb,
   denote F a va -> denote F b vb -> all_nonan va -> all_nonan vb ->
   vals_eq F a b (Zlength a) (Zlength b) = Some (is_eq (cmp_values va vb)).
 Proof. exact vals_eq_spec. Qed.
 
-Theorem C16_refl : forall F a va, denote F a va -> all_nonan va ->
+Theorem C16_refl_partial : forall F a va, denote F a va -> all_nonan va ->
   vals_cmp F a a (Zlength a) (Zlength a) = Some 0 /\
   vals_eq F a a (Zlength a) (Zlength a) = Some true.
 Proof. exact law_refl. Qed.
 
 (* antisymmetric: cmp b a = - cmp a b (results are -1, 0, 1) *)
-Theorem C16_antisym : forall F a b va vb,
+Theorem C16_antisym_partial : forall F a b va vb,
   denote F a va -> denote F b vb -> all_nonan va -> all_nonan vb ->
   exists x, vals_cmp F a b (Zlength a) (Zlength b) = Some x /\
             vals_cmp F b a (Zlength b) (Zlength a) = Some (- x) /\ -1 <= x <= 1.
@@ -47,7 +51,7 @@ Proof. exact law_antisym. Qed.
 
 (* transitive: a <= b and b <= c give a <= c, strictly if one of the two is strict
    (so also: a == b and b == c give a == c) *)
-Theorem C16_trans : forall F a b c va vb vc,
+Theorem C16_trans_partial : forall F a b c va vb vc,
   denote F a va -> denote F b vb -> denote F c vc ->
   all_nonan va -> all_nonan vb -> all_nonan vc ->
   forall x y,
@@ -56,7 +60,7 @@ Theorem C16_trans : forall F a b c va vb vc,
   exists z, vals_cmp F a c (Zlength a) (Zlength c) = Some z /\ z <= 0 /\ (x < 0 \/ y < 0 -> z < 0).
 Proof. exact law_trans. Qed.
 
-Theorem C16_eq_iff_cmp0 : forall F a b va vb,
+Theorem C16_eq_iff_cmp0_partial : forall F a b va vb,
   denote F a va -> denote F b vb -> all_nonan va -> all_nonan vb ->
   exists e x, vals_eq F a b (Zlength a) (Zlength b) = Some e /\
               vals_cmp F a b (Zlength a) (Zlength b) = Some x /\ (e = true <-> x = 0).
@@ -110,7 +114,7 @@ Proof. exact AvSim.range_arg_spec. Qed.
 (* blind to compression: two ways of writing the same values give the same
    equality, order (against every third list, and 0 between them), iteration
    and message *)
-Theorem C16_compress_invariant : forall F a a' v b vb addr,
+Theorem C16_compress_invariant_partial : forall F a a' v b vb addr,
   denote F a v -> denote F a' v -> denote F b vb -> all_nonan v -> all_nonan vb ->
   vals_cmp F a b (Zlength a) (Zlength b) = vals_cmp F a' b (Zlength a') (Zlength b) /\
   vals_cmp F b a (Zlength b) (Zlength a) = vals_cmp F b a' (Zlength b) (Zlength a') /\
@@ -268,10 +272,27 @@ Theorem C16_range_arg_flocq64_real : forall d s i,
 Proof. exact range_arg_flocq64_real. Qed.
 
 (* the laws for the instance the correspondence run executes *)
-Theorem C16_cmp_is_key_order_flocq : forall a b va vb,
+Theorem C16_cmp_is_key_order_flocq_partial : forall a b va vb,
   denote flocq_ops a va -> denote flocq_ops b vb -> all_nonan va -> all_nonan vb ->
   vals_cmp flocq_ops a b (Zlength a) (Zlength b) = Some (z_of_cmp (cmp_values va vb)).
 Proof. exact (vals_cmp_spec flocq_ops). Qed.
+
+(* ---- the side condition all_nonan cannot be dropped: with a NaN the CURRENT
+   functions (and the code: corpus/C16/nan.txt) are not reflexive (cmp -1, eq
+   false), not antisymmetric (NaN < 0.0 and 0.0 < NaN), hence not transitive
+   (0.0 < NaN < 0.0), and "3 x NaN" is not equal to NaN NaN NaN --------------- *)
+Theorem C16_nan_refuted : forall F,
+  exists a b a3 a3' va vb v3,
+    denote F a va /\ denote F b vb /\ denote F a3 v3 /\ denote F a3' v3 /\
+    all_nonan vb /\ ~ all_nonan va /\
+    vals_cmp F a a (Zlength a) (Zlength a) = Some (-1) /\
+    vals_eq F a a (Zlength a) (Zlength a) = Some false /\
+    vals_cmp F a b (Zlength a) (Zlength b) = Some (-1) /\
+    vals_cmp F b a (Zlength b) (Zlength a) = Some (-1) /\
+    vals_cmp F b b (Zlength b) (Zlength b) = Some 0 /\
+    vals_cmp F a3 a3' (Zlength a3) (Zlength a3') = Some (-1) /\
+    vals_eq F a3 a3' (Zlength a3) (Zlength a3') = Some false.
+Proof. exact nan_refuted. Qed.
 
 (* ---- regressions: the functions as they were BEFORE the fix: commits (kept
    in ArgVal/AvRegress.v) violate the property; witnesses replayed on the
